@@ -207,9 +207,9 @@ def check(ctx: Ctx) -> None:
         for kind, node, desc in hidden_state_sites(model, fn):
             if kind != "memo":
                 ctx.ob("C11.pure", f"{fname}::{kind}", False, f"{fname} {desc}", file=file, line=node.lineno, function=fn.qualname)
-    check_path(ctx, "C11.state", ["ahbicht.utility_functions.tree_copy", *[f"{m}.{f}" for m, f, _ in PARSERS],
+    ctx.soft(lambda: check_path(ctx, "C11.state", ["ahbicht.utility_functions.tree_copy", *[f"{m}.{f}" for m, f, _ in PARSERS],
                                   "ahbicht.expressions.expression_resolver.parse_expression_including_unresolved_subexpressions"],
-               "a parse result must depend on the string alone")
+               "a parse result must depend on the string alone"))
     # memoisation nowhere else
     for fn in model.functions.values():
         for kind, node, desc in hidden_state_sites(model, fn):
